@@ -13,8 +13,11 @@ from .. import core
 
 
 class _VlenStr:
+    def __init__(self, encoding='utf-8'):
+        self.encoding = encoding
+
     def __repr__(self):
-        return "H5PY_VLEN_STR"
+        return "H5PY_VLEN_STR(%s)" % self.encoding
 
 
 VLEN_STR = _VlenStr()
@@ -26,8 +29,12 @@ def special_dtype(vlen=None):
     raise core.Unsupported("special_dtype")
 
 
-def string_dtype(*a, **k):
-    return VLEN_STR
+def string_dtype(encoding='utf-8', length=None):
+    if length is not None:
+        raise core.Unsupported("fixed-length string dtype")
+    if encoding not in ('utf-8', 'ascii'):
+        raise ValueError("Invalid encoding (%r); 'utf-8' or 'ascii' required" % (encoding,))
+    return VLEN_STR if encoding == 'utf-8' else _VlenStr('ascii')
 
 
 class Attrs(dict):
@@ -57,7 +64,7 @@ class Dataset:
         elif isinstance(data, np.ndarray):
             arr = data.copy()
         elif data is None:
-            arr = np.zeros(shape, dtype=object if dtype is VLEN_STR or dtype is None else dtype)
+            arr = np.zeros(shape, dtype=object if isinstance(dtype, _VlenStr) or dtype is None else dtype)
         else:
             data = list(data)
             arr = np.empty(len(data), dtype=object)
@@ -69,12 +76,12 @@ class Dataset:
                 raise TypeError("Object dtype dtype('O') has no native HDF5 equivalent")
         if shape is not None and tuple(arr.shape) != tuple(shape):
             raise ValueError("Shape tuple is incompatible with data: %r vs %r" % (tuple(shape), arr.shape))
-        if dtype is VLEN_STR:
+        if isinstance(dtype, _VlenStr):
             out = np.empty(arr.shape, dtype=object)
             for idx in np.ndindex(arr.shape):
                 v = arr[idx]
                 if isinstance(v, str):
-                    v = v.encode('utf8')
+                    v = v.encode(dtype.encoding)       # UnicodeEncodeError for an ascii dtype, as h5py
                 if not isinstance(v, bytes):
                     raise TypeError("vlen str dataset needs str/bytes, got %r" % type(v))
                 out[idx] = v
